@@ -449,6 +449,9 @@ func genC11(c *Ctx) {
 				time.Sleep(time.Duration(r.Intn(500)) * time.Microsecond)
 			}
 		}
+		// the late answers of asynchronous requests have been given (a fid a request was using is
+		// destroyed when that request lets go of it)
+		s.waitExited(5 * time.Second)
 		// every goroutine of the victim ends; the bystander keeps its two
 		want := map[string]int{"go9p.(*Conn).recv": 1, "go9p.(*Conn).send": 1}
 		if m, ok := waitCensus(want, 5*time.Second); !ok {
